@@ -12,4 +12,7 @@ import "sync/atomic"
 var (
 	VerifNoCrashEnq  atomic.Int64 // flush tasks accepted on the queue
 	VerifNoCrashDone atomic.Int64 // flush tasks completed by a worker
+	// fault injection: while set, mergeBatches panics (inserted by the overlay at the top of its body), so
+	// the harness can observe what a panic inside a flush does on the code as it is
+	VerifNoCrashPanic atomic.Bool
 )
